@@ -302,7 +302,7 @@ class C14(Engine):
                    "don't-care bits: V after RRC (the two guides disagree) and after DADD (undefined), the upper byte of the stack word "
                    "written by PUSH.B, SR bits above V, R3 as a register",
                    "opcodes outside the 16-bit core (0x0000-0x0fff, 0x1380-0x13ff, 0x1400-0x1fff) are executed (C15 monitors them) but not compared",
-                   "break_io is exercised with byte writes, the form docs/simulating.md documents"]
+                   "break_io is exercised with byte writes, the form docs/simulating.md documents; routines also store bytes and words next to the port (never on it) before they write to it"]
     real_components = Engine.real_components + ["SimulateMsp430 driven in-process by sim/engine_c14.cpp (set_reg, run(-1, 1)) and through naken_util's main()"]
     stub_components = Engine.stub_components + ["MSP430 reference model (sim/engine_c14.cpp), the oracle"]
 
